@@ -129,7 +129,7 @@ def run(ctx):
                        "digest models are the standards (RFC 1321, FIPS 180-4) in Gallina, pinned by their test vectors; no cryptographic claim",
                        "full Unicode case mapping is outside the model"]
     forbidden_gate(ctx, ["Base", "C15"])   # includes ModelCodec/ModelHash/ModelFmt/ModelVerbs and their proofs
-    ok, why = check_props(ctx, "C15/Props.v", ["C15/Harness.vo", "C15/Harness2.vo", "C15/Proofs.vo", "C15/Utf8Proofs.vo", "C01/ProofsJson.vo"])
+    ok, why = check_props(ctx, "C15/Props.v", ["C15/Harness.vo", "C15/Harness2.vo", "C15/RegexHarness.vo", "C15/Proofs.vo", "C15/Utf8Proofs.vo", "C01/ProofsJson.vo"])
     rng = ctx.rng
     terms, meta, oracle_bad = [], [], []
 
